@@ -46,19 +46,56 @@ def jTable (t : Table Tok Tok) : Json :=
   Json.mkObj [("index", jStrs t.index),
               ("cols", Json.arr (t.cols.map fun c => Json.arr #[Json.str c.1, jStrs c.2]).toArray)]
 
+/-- A flag as the caller wrote it: a JSON bool (`True` / `False`) or `{"form": …, "value" | "bits": …}` with form
+    `bool`, `np.bool_`, `int`, `np.int64`, `float`, `np.float64` (IEEE bits), `str`, `none`, `omitted` (keyword not
+    passed: `none`). -/
+def parseFlagForm (j : Json) : R (Option FlagForm) :=
+  match j with
+  | .bool b => pure (some (.bool b))
+  | _ => do
+    let form ← str j "form"
+    if form == "bool" then pure (some (.bool (← bool j "value")))
+    else if form == "np.bool_" then pure (some (.npbool (← bool j "value")))
+    else if form == "int" || form == "np.int64" then pure (some (.int (← int j "value")))
+    else if form == "float" || form == "np.float64" then pure (some (.float (← nat j "bits")))
+    else if form == "str" then pure (some (.str (← str j "value")))
+    else if form == "none" then pure (some .none)
+    else if form == "omitted" then pure none
+    else throw s!"unknown flag form {form}"
+
 structure FlagsIn where
-  status : Bool
-  iterations : Bool
-  internal : Bool
+  status : Option FlagForm
+  iterations : Option FlagForm
+  internal : Option FlagForm
+
+def flagOr (j : Json) (k : String) : R (Option FlagForm) :=
+  match j.getObjVal? k with
+  | .ok v => parseFlagForm v
+  | .error _ => pure none
 
 def parseFlags (j : Json) : R FlagsIn := do
-  pure ⟨← bool j "status", ← bool j "iterations", ← bool j "include_internal"⟩
+  pure ⟨← flagOr j "status", ← flagOr j "iterations", ← flagOr j "include_internal"⟩
 
-/-- kind `tools_columns`: `{store, status, iterations, include_internal}` → the exported table. -/
+def parseMixin (s : String) : R Mixin :=
+  if s == "alias" then pure .alias else if s == "tracer" then pure .tracer
+  else if s == "pandasindex" then pure .pandasIndex else if s == "progress" then pure .progressBar
+  else throw s!"unknown mixin {s}"
+
+def FlagsIn.flags3 (f : FlagsIn) : Flags3 :=
+  ⟨argValue Fsic.Generated.exportDefaultStatus f.status, argValue Fsic.Generated.exportDefaultIterations f.iterations,
+   argValue Fsic.Generated.exportDefaultInternal f.internal⟩
+
+/-- kind `tools_columns`: `{store, status, iterations, include_internal[, mro: [mixin…], use_aliases]}` → the exported
+    table.  Flags in any form (`parseFlagForm`); with `mro` the export goes through the wrappers of the class. -/
 def handleColumns (j : Json) : R String := do
   let m ← parseStore (← obj j "store")
   let f ← parseFlags j
-  pure (jTable (modelTable m f.status f.iterations f.internal)).compress
+  match j.getObjVal? "mro" with
+  | .ok mj =>
+    let mro ← (← strList mj).mapM parseMixin
+    let ua ← flagOr j "use_aliases"
+    pure (jTable (classExport mro (argValue false ua) [] m f.flags3)).compress
+  | .error _ => pure (jTable (modelTableA m f.status f.iterations f.internal)).compress
 
 /-- kind `tools_container`: `{store}` → `VectorContainer.to_dataframe`. -/
 def handleContainer (j : Json) : R String := do
@@ -75,7 +112,7 @@ def handleLinker (j : Json) : R String := do
     | [k, v] => pure (← k.getStr?, ← parseStore v)
     | _ => throw "pair expected"
   let f ← parseFlags j
-  let out := linkerTables name l subs f.status f.iterations f.internal
+  let out := linkerTablesA name l subs f.status f.iterations f.internal
   pure (Json.arr (out.map fun p => Json.arr #[Json.str p.1, jTable p.2]).toArray).compress
 
 /-- `astype(float)` on a token: floats stay, ints and bools become the float of that value; anything else is
@@ -98,7 +135,8 @@ def handleFromTable (j : Json) : R String := do
   let t : Table Tok Tok := ⟨← strList (← obj tj "index"), ← parsePairs (← obj tj "cols")⟩
   let NAMES ← strList (← obj j "NAMES")
   let dflt ← str j "default"
-  match fromTable castFloat ⟨dflt, "s:-", "i:-1"⟩ NAMES t with
+  let strict ← flagOr j "strict"
+  match fromTableStrict castFloat ⟨dflt, "s:-", "i:-1"⟩ NAMES strict t with
   | none => pure "\"raises\""
   | some m =>
     pure (Json.mkObj [("span", jStrs m.span), ("names", jStrs m.names),
